@@ -211,6 +211,9 @@ func (s IndexStep) Apply(val Value) (Value, error) {
 	if val == NilVal || val.IsNull() {
 		return NilVal, errors.New("cannot index a null value")
 	}
+	if s.Key == NilVal || s.Key.IsNull() {
+		return NilVal, errors.New("key value is null")
+	}
 
 	switch s.Key.Type() {
 	case Number:
